@@ -30,7 +30,7 @@ REQUIRED = ['kind:em', 'kind:pop', 'kind:ll', 'kind:hier', 'kind:fpost', 'kind:p
             'reconfigured', 'exhaustive', 'op:set_n_ids', 'op:fix', 'op:set_dim_names', 'op:set_parameter_names',
             'op:set_population_parameters', 'op:rejected_selection', 'rejected_selection:cov']
 POP_OPS = ['set_n_ids', 'set_dim_names', 'set_parameter_names', 'fix', 'release', 'set_population_parameters',
-           'rejected_selection']
+           'rejected_selection', 'wrap']
 
 
 # ---- exhaustive enumeration ------------------------------------------------------------------
@@ -67,6 +67,11 @@ def extra_cases(tier):
                 for seq in ([2], [0], [2, 1]):          # set_n_ids(3) / (1) / (3) then (2)
                     prog = [['fix', k]] + [['set_n_ids', a] for a in seq]
                     out.append(dict(kind='pop', pop=pop, n_ids=2, prog=prog, enumerated=True))
+            # the same compositions inside a reduced model in which nothing is fixed, or nothing any more
+            for head in ([['wrap', 0]], [['fix', 0], ['release', 0]]):
+                for seq in ([2], [0], [2, 1]):
+                    out.append(dict(kind='pop', pop=pop, n_ids=2, prog=head + [['set_n_ids', a] for a in seq],
+                                    enumerated=True))
     # hierarchical likelihoods over a population model that is still configured for ONE individual when it is handed
     # over (heterogeneous part, plain and inside a reduced model with a parameter fixed by name), 2-3 individuals
     for n_ids in (2, 3):
@@ -344,6 +349,10 @@ def check(case):
                         m.fix_parameters({names[arg % len(names)]: 0.6})
                         if fixed_names is not None:
                             fixed_names.add(names[arg % len(names)])
+                elif op == 'wrap':
+                    # a reduced model in which nothing is fixed (yet)
+                    if not isinstance(m, chi.ReducedPopulationModel):
+                        m = chi.ReducedPopulationModel(m)
                 elif op == 'release':
                     if isinstance(m, chi.ReducedPopulationModel):
                         inner = m.get_population_model().get_parameter_names()
